@@ -19,7 +19,7 @@ Proof. split; reflexivity. Qed.
 
 (* two threads in AddClass (write under the READ lock): a schedule reaching two concurrent writes of classMap *)
 Example old_vm_race_refuted :
-  exists sched, race (Lock.run (init_state [[ARLock; ARead 3; ARead 4; AWrite 3; ARUnlock];
+  exists sched, race (LockDiscipline.run (init_state [[ARLock; ARead 3; ARead 4; AWrite 3; ARUnlock];
                                        [ARLock; ARead 3; ARead 4; AWrite 3; ARUnlock]]) sched).
 Proof.
   exists [0; 1; 0; 0; 1; 1]%nat. unfold race. vm_compute.
@@ -28,7 +28,7 @@ Proof.
 Qed.
 (* a lock-free GetClass racing with AddClass's write *)
 Example old_vm_read_write_race_refuted :
-  exists sched, race (Lock.run (init_state [[ARLock; ARead 3; ARead 4; AWrite 3; ARUnlock]; [ARead 3; ARead 3]]) sched).
+  exists sched, race (LockDiscipline.run (init_state [[ARLock; ARead 3; ARead 4; AWrite 3; ARUnlock]; [ARead 3; ARead 3]]) sched).
 Proof.
   exists [0; 0; 0]%nat. unfold race. vm_compute.
   exists 0%nat, 1%nat, (Shared, [AWrite 3; ARUnlock]), (Free, [ARead 3; ARead 3]), true, false, 3%nat.
